@@ -215,6 +215,29 @@ pub fn judge_score<S: HardGeom>(state: &PackedState<S>, c: &StateCase, st: &mut 
         });
     } else {
         st.sample(|| json!({"case": case, "library_score": score, "true_packing_fraction": want}));
+        // "two states of the same shape are ranked by their real density": the same crystal in
+        // a cell k times longer is a packing of density 1/k^2 times this one; the states' own
+        // ordering (what the CLI picks its best replica with) must say so
+        let k = [1.000001, 1.0001, 1.05, 1.5, 4.][(hash64(&p.quant()) % 5) as usize];
+        let mut p2 = p;
+        p2.len = p.len * k;
+        let dilute = match build_packed(state.shape.clone(), &c.group, &p2) {
+            Ok(d) => d,
+            Err(_) => return,
+        };
+        if let Some(s2) = dilute.score() {
+            st.count("pairs_of_states_ranked");
+            let by_order = state.partial_cmp(&dilute);
+            let best_is_dense = std::cmp::max(dilute.clone(), state.clone()).score() == Some(score) && std::cmp::max(state.clone(), dilute.clone()).score() == Some(score);
+            if by_order != Some(std::cmp::Ordering::Greater) || !(state > &dilute) || state == &dilute || !best_is_dense || !(rel_diff(s2 * k * k, score) <= 1e-9) {
+                st.violation(Violation {
+                    kind: "c02.state".into(),
+                    signature: "PackedState::cmp:not-ranked-by-density".into(),
+                    case: serde_json::to_value(&case).unwrap(),
+                    detail: json!({"score": score, "score_of_the_same_crystal_in_a_cell_k_times_longer": s2, "k": k, "partial_cmp": format!("{:?}", by_order), "max_picks_the_denser": best_is_dense}),
+                });
+            }
+        }
     }
 }
 
@@ -309,7 +332,7 @@ pub fn gen_history<R: Rng>(rng: &mut R) -> History {
 }
 
 pub fn run(ctx: &Ctx) {
-    ctx.set_rule("direct: Shape::area() of polygon(3..64), from_radial with random radii 0.2-2 (star shapes included), circle, trimers over radius 0.1-1.5 x angle 10-180 x distance 0.1-2.5, vs shoelace / exact union-of-discs area (Green's theorem over exposed arcs; self-tested against a 1200x1200 grid count at start-up); state level: random states of all 7 groups, as generated and shrunk to just outside first contact, restricted to oracle-valid packings: score vs copies x area / |A x B| (1e-9 relative) and score <= 1; the same comparison after every edit of state objects that live through histories of 3-13 edits (several parameters at once - set, rescaled by powers of two, negated, nudged, exchanged, reset -, the shape replaced by another, the cell replaced, clone(), JSON round trip); non-trivial = polygons, trimers with at least one lens, states with oblique cells or multi-disc shapes; distinct by shape/parameter hash");
+    ctx.set_rule("direct: Shape::area() of polygon(3..64), from_radial with random radii 0.2-2 (star shapes included), circle, trimers over radius 0.1-1.5 x angle 10-180 x distance 0.1-2.5, vs shoelace / exact union-of-discs area (Green's theorem over exposed arcs; self-tested against a 1200x1200 grid count at start-up); state level: random states of all 7 groups, as generated and shrunk to just outside first contact, restricted to oracle-valid packings: score vs copies x area / |A x B| (1e-9 relative) and score <= 1; each such state is also ranked (partial_cmp, >, ==, max) against the same crystal in a cell 1.000001 to 4 times longer; the same comparison after every edit of state objects that live through histories of 3-13 edits (several parameters at once - set, rescaled by powers of two, negated, nudged, exchanged, reset -, the shape replaced by another, the cell replaced, clone(), JSON round trip); non-trivial = polygons, trimers with at least one lens, states with oblique cells or multi-disc shapes; distinct by shape/parameter hash");
     if !selftest_union_area(ctx) {
         return;
     }
